@@ -11,7 +11,7 @@ use std::sync::Arc;
 /// This function performs a binary search to find the most recent volume with data.
 pub async fn get_latest_volume(site: &str) -> crate::result::Result<LatestVolumeResult> {
     let calls = Arc::new(AtomicI32::new(0));
-    let latest_volume = search(998, DateTime::<Utc>::MAX_UTC, |volume| {
+    let latest_volume = search(999, DateTime::<Utc>::MAX_UTC, |volume| {
         calls.fetch_add(1, Relaxed);
         async move {
             let chunks = list_chunks_in_volume(site, VolumeIndex::new(volume + 1), 1).await?;
